@@ -29,6 +29,8 @@ pub enum Context {
     ProcSubstIn,
     ProcSubstOut,
     Coproc,
+    /// `coproc M` with a bare simple command as the body
+    CoprocSimple,
 }
 
 #[derive(Clone, Debug, Serialize, Deserialize)]
@@ -39,6 +41,12 @@ pub struct Case {
     /// a second context of another kind running at the same time (background only)
     pub second: Option<(Context, Vec<String>)>,
     pub parent_activity: Vec<String>,
+    /// wait for the background context with `wait %1` instead of a bare `wait`
+    #[serde(default)]
+    pub wait_job_spec: bool,
+    /// run the context inside a loop inside a function of the parent
+    #[serde(default)]
+    pub in_loop_function: bool,
     pub front_end: FrontEnd,
     pub cfg: SimConfig,
     pub cfg_b: SimConfig,
@@ -51,7 +59,6 @@ fn2() { echo fn2; }\n\
 alias a0='echo a0'\n\
 trap 'probe usr1' USR1\n\
 set -- p1 p2 p3\n\
-mkdir -p sub sub2\n\
 pushd sub2 >/dev/null\n\
 exec 5>keep5.txt\n";
 
@@ -110,6 +117,10 @@ pub const MUTATORS: &[&str] = &[
     "declare -n nref=v1",
     "getopts ab: opt -a",
     "wait",
+    "break",
+    "continue",
+    "return 9",
+    "exit",
 ];
 
 pub const PROCESS_WIDE: &[&str] = &["umask 077", "ulimit -S -n 768"];
@@ -137,6 +148,15 @@ fn ctx_text(ctx: &Context, body: &str, idx: usize) -> (String, String) {
         // the reader drains its input first, so that the parent's own write never meets EPIPE
         Context::ProcSubstOut => (String::new(), format!("simseq 1 > >( simcat >/dev/null; {body} )")),
         Context::Coproc => (String::new(), format!("coproc {{ :; {body}; }}")),
+        Context::CoprocSimple => {
+            // only the first mutator, and only if it is a bare simple command
+            let first = body.split("; ").next().unwrap_or(":");
+            let simple = !first.contains("()") && !first.starts_with("((") && !first.starts_with('.') && !first.contains("<<<");
+            // (a neutralised mutator is `:`; the body must be a word the parser takes as a command)
+            // the trailing `;` keeps a following `{ ...; }` line from being taken as the body of
+            // `coproc NAME`
+            (String::new(), format!("coproc {} ;", if simple && first != ":" { first } else { "true" }))
+        }
     }
 }
 
@@ -156,9 +176,19 @@ pub fn render(case: &Case, neutral: bool) -> String {
         cmds.push(cmd2);
     }
     // launch the background context first so that it overlaps with the other one
+    let mut inner = String::new();
     for c in &cmds {
-        s.push_str(c);
-        s.push('\n');
+        inner.push_str(c);
+        inner.push('\n');
+    }
+    if case.wait_job_spec {
+        inner.push_str("wait %1\n");
+    }
+    if case.in_loop_function {
+        s.push_str(&format!("pf() {{\nfor q in 1 2; do\n{inner}probe inloop\ndone\nprobe infunc\n}}\npf\nprobe afterfunc\n"));
+    } else {
+        s.push_str(&inner);
+        s.push_str("probe afterctx\n");
     }
     for a in &case.parent_activity {
         s.push_str(a);
@@ -193,6 +223,7 @@ const CONTEXTS: &[Context] = &[
     Context::ProcSubstIn,
     Context::ProcSubstOut,
     Context::Coproc,
+    Context::CoprocSimple,
 ];
 
 fn gen_cfg(rng: &mut Rng) -> SimConfig {
@@ -238,7 +269,9 @@ impl C12 {
         };
         let cfg = gen_cfg(&mut rng);
         let cfg_b = gen_cfg(&mut rng);
-        Case { class, context, mutators, second, parent_activity, front_end, cfg, cfg_b }
+        let wait_job_spec = rng.below(3) == 0;
+        let in_loop_function = rng.below(4) == 0;
+        Case { class, context, mutators, second, parent_activity, wait_job_spec, in_loop_function, front_end, cfg, cfg_b }
     }
 }
 
@@ -269,7 +302,7 @@ fn mask_snapshot(v: &mut Value) {
     // have already been swept
     remove_keys_with_prefix(v, &["COPROC_PID"]);
     if let Some(funcs) = v.pointer_mut("/funcs") {
-        remove_keys_with_prefix(funcs, &["mf0", "mf1", "bf0", "bf1"]);
+        remove_keys_with_prefix(funcs, &["mf0", "mf1", "bf0", "bf1", "pf"]);
     }
 }
 
@@ -302,7 +335,12 @@ fn snap_of(r: &runner::RunResult) -> Option<Value> {
 pub fn judge(case: &Case) -> Verdict {
     let script_a = render(case, false);
     let script_b = render(case, true);
-    let files = vec![("src.sh".to_string(), "v1=sourced\nsrcfn() { :; }\n".to_string())];
+    let files = vec![
+        ("src.sh".to_string(), "v1=sourced\nsrcfn() { :; }\n".to_string()),
+        ("sub/.keep".to_string(), String::new()),
+        ("sub2/.keep".to_string(), String::new()),
+        ("sub2/src.sh".to_string(), "v1=sourced\nsrcfn() { :; }\n".to_string()),
+    ];
     let mut v = Verdict::default();
     v.class_name = case.class.clone();
     v.case_key = fnv(&script_a);
@@ -310,6 +348,7 @@ pub fn judge(case: &Case) -> Verdict {
     let viol = |class: &str, detail: String, shape: Option<&str>| Violation { class: class.to_string(), detail, known_shape: shape.map(String::from) };
 
     let mut snaps = vec![];
+    let mut tagseqs: Vec<Vec<String>> = vec![];
     for (script, cfg) in [(&script_a, &case.cfg), (&script_b, &case.cfg_b)] {
         let mut spec = RunSpec::new(script.clone(), case.front_end.clone(), cfg.clone());
         spec.needs_dir = true;
@@ -352,6 +391,28 @@ pub fn judge(case: &Case) -> Verdict {
         };
         mask_snapshot(&mut s);
         snaps.push(s);
+        tagseqs.push(
+            r.events
+                .iter()
+                .filter_map(|e| match &e.kind {
+                    EventKind::Probe { tag, depth, .. } if *depth == 0 && e.pid == 0 && !tag.starts_with("snap:") => Some(tag.clone()),
+                    _ => None,
+                })
+                .collect(),
+        );
+    }
+    // control flow is state too: the parent must run the same commands in both runs
+    if tagseqs[0] != tagseqs[1] {
+        // `( ( M ) )` parsed as arithmetic: a syntax/evaluation error in one of the two texts
+        // aborts the enclosing function in that run only
+        let spaced = matches!(case.context, Context::NestedSubshell | Context::ParenAfterArith)
+            || (case.context == Context::Subshell && case.mutators.first().is_some_and(|m| m.starts_with("((")));
+        v.violation = Some(Violation {
+            class: "C12/leak/control-flow".into(),
+            detail: format!("the parent's own probes differ: {:?} with mutators vs {:?} without; script={script_a:?}", tagseqs[0], tagseqs[1]),
+            known_shape: if spaced { Some("spaced-double-paren-parsed-as-arithmetic".into()) } else { None },
+        });
+        return v;
     }
     let mut diffs = vec![];
     runner::json_diff(&snaps[0], &snaps[1], "", &mut diffs);
@@ -424,6 +485,8 @@ impl Check for C12 {
                     mutators: vec![m.to_string()],
                     second: None,
                     parent_activity: vec![],
+                    wait_job_spec: (ci + mi) % 2 == 0,
+                    in_loop_function: (ci + mi) % 5 == 0,
                     front_end: FrontEnd::DashC,
                     cfg: cfg.clone(),
                     cfg_b: cfg,
@@ -467,6 +530,16 @@ impl Check for C12 {
         if c.context != Context::Subshell {
             let mut d = c.clone();
             d.context = Context::Subshell;
+            out.push(d);
+        }
+        if c.wait_job_spec {
+            let mut d = c.clone();
+            d.wait_job_spec = false;
+            out.push(d);
+        }
+        if c.in_loop_function {
+            let mut d = c.clone();
+            d.in_loop_function = false;
             out.push(d);
         }
         if c.cfg.strategy != Strategy::LowestId {
